@@ -15,24 +15,8 @@ from .c05 import _resolve_local
 from .c11 import KEYS, fixed_width_ec
 
 
-def r13_1(ctx) -> None:
+def _r13_1_shape(ctx, th) -> None:
     eng = ctx.eng
-    P = eng.prog
-    F = eng.folder
-    for cname, want in T.THUMBPRINT_MEMBERS.items():
-        c = P.cls(KEYS[cname])
-        reg = F.class_attr(c, "value_registry")
-        if not isinstance(reg, dict):
-            raise AnalysisError(f"{cname}.value_registry did not fold")
-        got = {k for k, p in reg.items() if F.get_attr(p, "required") is True} | {"kty"}
-        ctx.check(got == want, "R13.1", None, None, f"{cname} thumbprint members", f"thumbprint members of {cname} fold to {sorted(got)}, RFC 7638 requires {sorted(want)}",
-                  f"= {sorted(want)}", construct=f"{cname} thumbprint members")
-    bk = P.cls("rfc7517.models:BaseKey")
-    th = bk.methods.get("thumbprint")
-    if th is None:
-        raise AnalysisError("BaseKey.thumbprint vanished")
-    over = [f for f in eng.prog.implementations(bk, "thumbprint") if f is not th]
-    ctx.check(not over, "R13.1", over[0] if over else th, None, "thumbprint overrides", "a key class overrides thumbprint()", "single implementation", construct="thumbprint override")
     sn = th.self_name
     comp = [n for n in fn_nodes(th) if isinstance(n, ast.ListComp)]
     ok = False
@@ -63,12 +47,135 @@ def r13_1(ctx) -> None:
                 okc = True
     ctx.check(ok and bool(app) and okc, "R13.1", th, th.node, th.short, "BaseKey.thumbprint does not hash exactly the required members of value_registry plus kty of the key's dict view",
               "fields = [required members] + ['kty']; thumbprint(self.dict_value, fields, digest)", construct="BaseKey.thumbprint field selection")
+
+
+def _r13_1_folded(ctx, th) -> bool:
+    """Decide the field selection by folding BaseKey.thumbprint for every key class with the call into rfc7638.thumbprint
+    intercepted: whatever the spelling of the selection, the arguments handed over must be (the key's dict view, exactly the
+    RFC 7638 members, the class's digest method).  Returns False when the body does not fold (the shape rule decides then)."""
+    from ..fold import Inst, FuncVal, ExtVal, is_unknown
+    eng = ctx.eng
+    P, F = eng.prog, eng.folder
+    res = {}
+    for cname, want in T.THUMBPRINT_MEMBERS.items():
+        c = P.cls(KEYS[cname])
+        got = []
+        F.intercepts = {"rfc7638:thumbprint": lambda b: (got.append(b), ExtVal("THUMBPRINT"))[1]}
+        try:
+            r = F.call(FuncVal(c.lookup("thumbprint"), None, Inst(c, {"dict_value": ExtVal("DICT_VALUE")})), [], {})
+        except Exception:
+            return False
+        finally:
+            F.intercepts = {}
+        if len(got) != 1 or not (isinstance(r, ExtVal) and r.name == "THUMBPRINT"):
+            return False
+        b = got[0]
+        rf = eng.prog.func("rfc7638:thumbprint")
+        vals = [b.get(p) for p in rf.pos_params[:3]]
+        if is_unknown(vals[1]) or not isinstance(vals[1], (list, tuple, set, frozenset)) or any(not isinstance(x, str) for x in vals[1]):
+            return False
+        res[cname] = vals
+    for cname, (dv, fields, dm) in res.items():
+        want = T.THUMBPRINT_MEMBERS[cname]
+        ctx.check(isinstance(dv, ExtVal) and dv.name == "DICT_VALUE" and not dv.called, "R13.1", th, th.node, f"{cname} :: thumbprint input",
+                  f"{cname}.thumbprint() does not hash the key's own dict view (folds to {dv!r})", "thumbprint(self.dict_value, ...)", construct="BaseKey.thumbprint field selection")
+        ctx.check(set(fields) == set(want), "R13.1", th, th.node, f"{cname} :: thumbprint fields",
+                  f"{cname}.thumbprint() hands the members {sorted(set(fields))} to rfc7638.thumbprint, RFC 7638 requires {sorted(want)}", f"= {sorted(want)}",
+                  construct="BaseKey.thumbprint field selection")
+        cdm = F.class_attr(P.cls(KEYS[cname]), "thumbprint_digest_method")
+        ctx.check(dm == cdm and isinstance(dm, str), "R13.1", th, th.node, f"{cname} :: thumbprint digest", f"{cname}.thumbprint() hands digest {dm!r} on, the class selects {cdm!r}",
+                  "digest = self.thumbprint_digest_method", construct="BaseKey.thumbprint field selection")
+    return True
+
+
+def r13_1(ctx) -> None:
+    eng = ctx.eng
+    P = eng.prog
+    F = eng.folder
+    for cname, want in T.THUMBPRINT_MEMBERS.items():
+        c = P.cls(KEYS[cname])
+        reg = F.class_attr(c, "value_registry")
+        if not isinstance(reg, dict):
+            raise AnalysisError(f"{cname}.value_registry did not fold")
+        got = {k for k, p in reg.items() if F.get_attr(p, "required") is True} | {"kty"}
+        ctx.check(got == want, "R13.1", None, None, f"{cname} thumbprint members", f"thumbprint members of {cname} fold to {sorted(got)}, RFC 7638 requires {sorted(want)}",
+                  f"= {sorted(want)}", construct=f"{cname} thumbprint members")
+    bk = P.cls("rfc7517.models:BaseKey")
+    th = bk.methods.get("thumbprint")
+    if th is None:
+        raise AnalysisError("BaseKey.thumbprint vanished")
+    over = [f for f in eng.prog.implementations(bk, "thumbprint") if f is not th]
+    ctx.check(not over, "R13.1", over[0] if over else th, None, "thumbprint overrides", "a key class overrides thumbprint()", "single implementation", construct="thumbprint override")
+    if not _r13_1_folded(ctx, th):
+        _r13_1_shape(ctx, th)
     dm = eng.folder.class_attr(bk, "thumbprint_digest_method")
     ctx.check(dm in ("sha256", "sha384", "sha512"), "R13.1", None, None, "digest method", f"default thumbprint digest folds to {dm!r}", f"= {dm}", construct="thumbprint_digest_method")
     ctx.check(dm == "sha256", "R13.1", None, None, "default digest", f"default digest is {dm!r}, RFC 7638 examples and the statement use SHA-256", "sha256", construct="default thumbprint digest")
 
 
+def _r13_2_folded(ctx) -> bool:
+    """Decide the thumbprint computation by folding rfc7638.thumbprint on a probe JWK (extra members, unsorted field list,
+    a non-default digest) with json.dumps / hashlib / base64 kept symbolic: the JSON input must be exactly the listed members
+    in lexicographic order, serialised without whitespace; the digest is hashlib.new(<selected>, UTF-8 bytes of that JSON);
+    the result is its unpadded base64url text.  False when the body does not fold (the shape rule decides then)."""
+    import re
+    from ..fold import FuncVal, ExtVal, is_unknown
+    eng = ctx.eng
+    F = eng.folder
+    fn = eng.prog.func("rfc7638:thumbprint")
+    probe = {"zz": "9", "y": "Yv", "kty": "EC", "a": "0", "x": "Xv", "crv": "P-256", "d": "Dv", "kid": "K"}
+    fields = ["y", "crv", "kty", "x"]
+    got = []
+    F.intercepts = {"util:to_bytes": lambda b: (got.append(b), ExtVal("TOBYTES"))[1]}
+    try:
+        r = F.call(FuncVal(fn, None, None), [dict(probe), list(fields), "sha384"], {})
+    except Exception:
+        return False
+    finally:
+        F.intercepts = {}
+    if len(got) != 1 or not isinstance(r, ExtVal):
+        return False
+    tb = eng.prog.func("util:to_bytes")
+    j = got[0].get(tb.pos_params[0])
+    cs = got[0].get(tb.pos_params[1]) if len(tb.pos_params) > 1 else "utf-8"
+    if not (isinstance(j, ExtVal) and j.name == "json.dumps" and j.called and j.args):
+        return False
+    data = j.args[0]
+    kw = dict(j.kwargs)
+    if not isinstance(data, dict) or any(is_unknown(v) for v in list(kw.values()) + list(data.values())):
+        return False
+    d = fn.node
+    ctx.check(set(data) == set(fields) and all(data[k] == probe[k] for k in data if k in probe), "R13.2", fn, d, "thumbprint :: members",
+              f"members other than the listed fields can enter the thumbprint JSON (probe folds to members {sorted(data)})", "data[k] = dict_value[k] for k in fields only",
+              construct="thumbprint members copied")
+    ctx.check(list(data) == sorted(data) or kw.get("sort_keys") is True, "R13.2", fn, d, "thumbprint :: order",
+              f"the thumbprint JSON members are not in lexicographic order (probe folds to {list(data)})", "sorted(fields) / sort_keys=True", construct="thumbprint member order")
+    sep = kw.get("separators")
+    ctx.check(isinstance(sep, (tuple, list)) and list(sep) == [",", ":"] and kw.get("indent") is None, "R13.2", fn, d, "thumbprint :: separators",
+              "the thumbprint JSON is not serialised without whitespace (separators must be (',', ':'))", "separators=(',', ':')", construct="thumbprint JSON separators")
+    text = repr(r).replace("ext:", "")
+    mm = re.fullmatch(r"base64\.urlsafe_b64encode\((.*)\)\.rstrip\(b'='\)\.decode\((?:'utf-8'|'ascii'|'utf8')?\)", text)
+    ctx.check(mm is not None, "R13.2", fn, d, "thumbprint :: encoding", f"the thumbprint is not the unpadded base64url of the digest (folds to {text[:90]})",
+              "urlsafe_b64encode(hash.digest()).decode()", construct="thumbprint output encoding")
+    inner = mm.group(1) if mm else text
+    okh = re.fullmatch(r"hashlib\.new\((?:name=)?'sha384', (?:data=)?TOBYTES\)\.digest\(\)", inner) is not None and cs in ("utf-8", "utf8", "ascii")
+    ctx.check(okh, "R13.2", fn, d, "thumbprint :: digest", f"the digest is not hashlib.new(<selected method>, UTF-8 bytes of the JSON) (folds to {inner[:90]})",
+              "hashlib.new(digest_method, to_bytes(json))", construct="thumbprint digest input")
+    return True
+
+
 def r13_2(ctx) -> None:
+    if not _r13_2_folded(ctx):
+        _r13_2_shape(ctx)
+    # urlsafe_b64encode strips the padding (C19 R19.3)
+    eng = ctx.eng
+    ue = eng.prog.func("util:urlsafe_b64encode")
+    t = [norm(r.ast.value) for r in cfg_of(ue).returns()]
+    ctx.check(all("rstrip(b'=')" in x and "urlsafe_b64encode" in x for x in t) and bool(t), "R13.2", ue, ue.node, "urlsafe_b64encode :: unpadded", "base64url output keeps its padding",
+              "rstrip(b'=')", construct="unpadded base64url")
+
+
+def _r13_2_shape(ctx) -> None:
     eng = ctx.eng
     fn = eng.prog.func("rfc7638:thumbprint")
     dv, fields = fn.pos_params[0], fn.pos_params[1]
@@ -130,11 +237,6 @@ def r13_2(ctx) -> None:
             okr = False
     ctx.check(okr, "R13.2", fn, fn.node, "thumbprint :: encoding", "the thumbprint is not the unpadded base64url of the digest", "urlsafe_b64encode(hash.digest()).decode()",
               construct="thumbprint output encoding")
-    # urlsafe_b64encode strips the padding (C19 R19.3)
-    ue = eng.prog.func("util:urlsafe_b64encode")
-    t = [norm(r.ast.value) for r in cfg_of(ue).returns()]
-    ctx.check(all("rstrip(b'=')" in x and "urlsafe_b64encode" in x for x in t) and bool(t), "R13.2", ue, ue.node, "urlsafe_b64encode :: unpadded", "base64url output keeps its padding",
-              "rstrip(b'=')", construct="unpadded base64url")
 
 
 def r13_4(ctx) -> None:
